@@ -76,6 +76,12 @@ func (g *Geometry) MarshalJSON() ([]byte, error) {
 // document to be marshalled.
 func (g *Geometry) MarshalBSON() ([]byte, error) {
 	ng := newGeometryMarshallDoc(g)
+	if ng.Coordinates != nil && ng.Geometries == nil {
+		// always write the coordinates, even if they are empty,
+		// otherwise the result can not be unmarshalled.
+		return bson.Marshal(&geometryCoordinatesDoc{Type: ng.Type, Coordinates: ng.Coordinates})
+	}
+
 	return bson.Marshal(ng)
 }
 
@@ -90,6 +96,10 @@ func (g *Geometry) MarshalBSONValue() (bsontype.Type, []byte, error) {
 	}
 
 	ng := newGeometryMarshallDoc(g)
+	if ng.Coordinates != nil && ng.Geometries == nil {
+		return bson.MarshalValue(&geometryCoordinatesDoc{Type: ng.Type, Coordinates: ng.Coordinates})
+	}
+
 	return bson.MarshalValue(ng)
 }
 
@@ -587,4 +597,11 @@ type geometryMarshallDoc struct {
 	Type        string       `json:"type" bson:"type"`
 	Coordinates orb.Geometry `json:"coordinates,omitempty" bson:"coordinates,omitempty"`
 	Geometries  []*Geometry  `json:"geometries,omitempty" bson:"geometries,omitempty"`
+}
+
+// geometryCoordinatesDoc is used to marshal non-collection geometries to BSON.
+// The bson omitempty drops zero length slices, unlike the json one.
+type geometryCoordinatesDoc struct {
+	Type        string       `bson:"type"`
+	Coordinates orb.Geometry `bson:"coordinates"`
 }
